@@ -291,6 +291,15 @@ func soloDecode(r *report, w *world, data []byte, name string, s *stream, useMod
 		impl = implDecode("D", optSet{}, rs)
 	}
 	if impl.Panic != "" || impl.ErrClass != 0 || len(impl.Raw) != 1 || impl.Raw[0] == nil {
+		// validity is not the implementation's to decide: a stream inside the domain of the reference semantics
+		// (well-formed, compatible with the profile, hosted file type) is a valid file; rejecting it breaks the
+		// "one File per input" clause for every chain that contains it
+		if r != nil && s != nil && useModel && impl.Panic == "" {
+			if sr, err := askSpec(w.d, s); err == nil && sr.InDomain && model.ErrClass == 0 {
+				r.specFail("valid_rejected", fmt.Sprintf("Decode rejects a valid file (inside the domain of the reference semantics, accepted by the model): %s (%s)\n    records: %.600s", impl.ErrText, name, s.specArgs()),
+					ioCase{Entry: "D", Hex: hexs(data), Corrupt: -1, Cut: -1, Part: ioSched{Family: "whole"}, Names: []string{name}})
+			}
+		}
 		return nil, impl, model, nil
 	}
 	v := &vfile{data: data, hs: hs, ds: ds, name: name, s: s}
